@@ -7,7 +7,8 @@ the same value - sign of zero, infinities, NaN, negative numbers, bool vs int, a
 str / bytes, nested collections - and that parse_literal is the inverse of literal_to_cst on it.
 Plus table clauses: generate / mutate / parse / render dispatch over the same primitive types,
 bool before int, renderers are not memoised (equal values of different type or sign share a hash).
-Random generation draws are not decided.
+generate_literal is interpreted for every requested type under size-0 / 1 / default configurations and
+scripted extreme draws (type and size of the result, no exception); mutation draws are not decided.
 """
 
 from __future__ import annotations
@@ -37,8 +38,92 @@ def _cached(fn) -> bool:
     return any("cache" in d for d in decorator_names(fn))
 
 
+def _generation(ctx, repo) -> None:
+    """generate_literal interpreted for every requested type under a grid of configurations (sizes 0 / 1 /
+    default) and scripted random draws (lowest, highest, seeded): the literal is produced without an
+    exception, is a valid token sequence and evaluates to a value of the requested type."""
+    import types as _types
+
+    mod = repo.module(LG)
+    gen = repo.func(LG, "generate_literal")
+    ctx.analysed(gen)
+    resolver = peval.repo_resolver(repo)
+    configs = {"all sizes 0": (0, 0, 0, 0), "all sizes 1": (1, 1, 1, 1), "defaults": (5, 20, 20, 2048)}
+    seeded_values = {int: -7, float: -0.0, complex: complex(-0.0, math.inf), str: "it's", bytes: b"\x00'"}
+
+    class Provider:
+        def __init__(self, seeded):
+            self.seeded = seeded
+
+        def get_constant_for(self, typ):
+            return seeded_values.get(typ) if self.seeded else None
+
+        def get_all_constants_for(self, typ):
+            return [seeded_values[typ], "k=v", "a;b"] if self.seeded and typ is str else [seeded_values[typ]] if self.seeded and typ in seeded_values else []
+
+    def script(kind):
+        state = {"n": 0}
+
+        def tick():
+            state["n"] += 1
+            return state["n"]
+
+        def next_int(lo=-100, hi=100):
+            if not lo < hi:
+                raise peval.Raises("ValueError", f"empty range in randrange({lo}, {hi})")
+            return {"lowest": lo, "highest": hi - 1, "seeded": (lo + hi - 1) // 2}[kind]
+
+        return {
+            "randomness.next_bool": lambda: {"lowest": False, "highest": False, "seeded": tick() % 2 == 0}[kind],
+            "randomness.next_float": lambda: {"lowest": 0.999, "highest": 0.5, "seeded": 0.0}[kind],
+            "randomness.next_int": next_int,
+            "randomness.next_gaussian": lambda: {"lowest": -2.5, "highest": 2.5, "seeded": 0.0}[kind],
+            "randomness.next_string": lambda n: ("'\\\"\n" * n)[:n],
+            "randomness.next_bytes": lambda n: (b"\x00'\xff" * n)[:n],
+            "randomness.next_char": lambda: "'",
+            "randomness.choice": lambda seq: list(seq)[0 if kind == "lowest" else -1],
+        }
+
+    for cname, (coll, strlen, byteslen, max_int) in configs.items():
+        cfg = _types.SimpleNamespace(
+            test_creation=_types.SimpleNamespace(collection_size=coll, string_length=strlen, bytes_length=byteslen, max_int=max_int, max_delta=20, collection_reference_probability=0.5),
+            seeding=_types.SimpleNamespace(seeded_primitives_reuse_probability=0.2),
+            string_statement=_types.SimpleNamespace(token_assembly_probability=0.1, max_assembled_tokens=3),
+            search_algorithm=_types.SimpleNamespace(random_perturbation=0.2),
+        )
+        for kind in ("lowest", "highest", "seeded"):
+            for raw in (bool, int, float, complex, str, bytes, list, set, tuple, dict, None):
+                label = f"[{cname}; {kind} draws] {raw.__name__ if raw else None}"
+                it = peval.Interp(resolver=resolver, ctor_prefixes=("cst.",), max_steps=400000, externs=script(kind), consts={"config.configuration": cfg}, native_types=(_types.SimpleNamespace, Provider))
+                try:
+                    term = it.run_function(gen, [raw, Provider(kind == "seeded")], {}, mod)
+                    text = cstterm.render(term)
+                    back = cstterm.safe_eval(text, {})
+                except peval.Undecided as exc:
+                    ctx.undecide("C23.generate", gen, f"{label}: {exc}")
+                    continue
+                except peval.Raises as exc:
+                    ctx.fail("C23.generate", gen, f"{label}: generate_literal raises {exc.name} ({exc.detail[:70]}): a legal configuration makes literal generation fail", stmt=label)
+                    continue
+                except cstterm.Invalid as exc:
+                    ctx.fail("C23.generate", gen, f"{label}: invalid token - {exc}", stmt=label)
+                    continue
+                except Exception as exc:  # noqa: BLE001
+                    ctx.fail("C23.generate", gen, f"{label}: the generated text does not evaluate: {type(exc).__name__}: {str(exc)[:60]}", stmt=label)
+                    continue
+                ok = back is None if raw is None else type(back) is raw
+                within = True
+                if raw in (list, set, tuple) and ok:
+                    within = len(back) <= max(coll, 0) or len(back) == 0
+                if raw is str and ok and kind != "seeded":
+                    within = len(back) <= max(strlen - 1, 0)
+                ctx.check("C23.generate", gen, ok and within, f"{label}: generated `{text[:60]}` evaluates to {_short(back)} ({type(back).__name__})" + ("" if ok else f", not a {raw.__name__ if raw else None}") + ("" if within else ", larger than the configured maximum"), what=f"{label} -> `{text[:40]}`", stmt=label)
+
+
 def check(ctx) -> None:
     repo = ctx.repo
+    ctx.rule("C23.generate", "ABSINT: generate_literal for every requested type under configurations with sizes 0 / 1 / default and scripted draws (lowest, highest, seeded) yields, without raising, valid tokens that evaluate to a value of the requested type within the configured maximum size", floor=90)
+    _generation(ctx, repo)
     ctx.rule("C23.render", "ABSINT: literal_to_cst over the value partition: valid tokens, rendered text evaluates to the same value (type, sign of zero, inf, nan)", floor=40)
     ctx.rule("C23.parse", "ABSINT: parse_literal(literal_to_cst(v), type(v)) is v for every primitive representative (the parser accepts exactly the shapes the renderer emits)", floor=30)
     ctx.rule("C23.ml-twin", "sibling renderer ml_value_to_cst agrees on the same float/int partition", floor=20)
